@@ -200,3 +200,35 @@ Example update_index_example :
   update_statements_index nat nat (fun _ => [0]) children [false; false; false; false] index script =
     Some [(1, 2, 0, 1); (2, 3, 1, 2); (4, 5, 2, 3)].
 Proof. split; vm_compute; reflexivity. Qed.
+
+(* edit_frame: a program of calls within K = {THETA, SIZES} plus one text-neutral regeneration of $OMEGA *)
+Example edit_frame_example :
+  let l := [(1%positive, T "PROBLEM", T "$PROBLEM x
+"); (2%positive, T "THETA", T "$THETA 1
+"); (3%positive, T "OMEGA", T "$OMEGA 0.1 ; c
+"); (4%positive, T "THETA", T "$THETA 2
+")] in
+  let cs := [EAll xrec (T "OMEGA") [(7%positive, T "OMEGA", T "$OMEGA 0.1 ; c
+")];                                                       (* new object, same text: neutral *)
+             EAll xrec (T "THETA") [(8%positive, T "THETA", T "$THETA 1.5
+"); (4%positive, T "THETA", T "$THETA 2
+")];
+             EIns xrec (9%positive, T "SIZES", T "$SIZES LTH=101
+") (Some 0)] in
+  calls_ok xrec xname xid xstr xorder [T "THETA"; T "SIZES"] l cs = true /\
+  option_map (map xid) (run_calls xrec xname xid xorder l cs) = Some [9; 1; 8; 7; 4]%positive /\
+  calls_ok xrec xname xid xstr xorder [T "THETA"] l cs = false.
+Proof. repeat split; vm_compute; reflexivity. Qed.
+
+(* parse without the engine: no record at all (NUL, lone CR, '$' inside a line), unknown records only, '$' at the end *)
+From PV Require Import C03.Proofs5.
+Example parse_malformed_examples :
+  has_record ([0; 13; 32]%N ++ T "x $y
+; $z") = false /\
+  raw_only static_tables (T "text
+$FOO " ++ [0%N; 13%N] ++ T " bar
+ $PRIOR x") = true /\
+  raw_only static_tables (T "$THETA 1") = false /\
+  parse static_tables toy_lark toy_steps (fun _ => 9%positive) is_token_name 5 6 7 8 9 (T "$FOO a
+  $") = Err EBadName.
+Proof. repeat split; vm_compute; reflexivity. Qed.
